@@ -2,14 +2,14 @@
 C16 — legacy unit spellings are exact aliases and never capture current units.
 
 Property theorems only.  Helper lemmas: `Barril/Proofs/LegacyLemmas.lean`.  Table facts
-(`*_all_legfix`, `*_all_legder`, `*_all_symuniq`, `*_all_cattype`) are generated and proved per
+(`*_all_legfix`, `*_all_legder`) are generated and proved per
 100-row chunk by `decide +kernel` over the rows, categories and substitution list the translator
 read from /repo's current source.
 
-Shape: generic theorems for ANY database `db` that is `Regular` (unique symbols; a category named
-like a quantity type belongs to it) and ANY pair `db.Alias l c r` ("`l` is no symbol, is rewritten
-to the symbol `c` whose row is `r`, and `c` is not rewritten"); then the table theorems show that
-every derived legacy spelling of each shipped database is such a pair.
+Shape: generic theorems for ANY database `db` and ANY pair `db.Alias l c r` ("`l` is no symbol, is
+rewritten to the symbol `c`, `c` is not rewritten, `r` is the only row spelled `c`, and a category
+named like `r`'s quantity type belongs to that type"); then the table theorems show that every
+derived legacy spelling of each shipped database is such a pair.
 -/
 import Barril.Proofs.LegacyLemmas
 import Barril.Gen.ThmLegfixPosc
@@ -18,12 +18,6 @@ import Barril.Gen.ThmLegfixSimple
 import Barril.Gen.ThmLegderPosc
 import Barril.Gen.ThmLegderNocat
 import Barril.Gen.ThmLegderSimple
-import Barril.Gen.ThmSymuniqPosc
-import Barril.Gen.ThmSymuniqNocat
-import Barril.Gen.ThmSymuniqSimple
-import Barril.Gen.ThmCattypePosc
-import Barril.Gen.ThmCattypeNocat
-import Barril.Gen.ThmCattypeSimple
 
 namespace Barril
 open Barril.Gen
@@ -53,13 +47,13 @@ theorem fixLegacy_idempotent_of_alias {db : Db} {l c : Sym} {r : UnitRow} (h : d
 
 /-- `GetInfo(qt, legacy)` = `GetInfo(qt, current)`, for every "category or quantity type" argument,
 errors included -/
-theorem getInfo_legacy {db : Db} (hr : db.Regular) {l c : Sym} {r : UnitRow} (h : db.Alias l c r)
+theorem getInfo_legacy {db : Db} {l c : Sym} {r : UnitRow} (h : db.Alias l c r)
     (qt0 : Sym) {fu : Bool} (hU : fu = false ∨ r.qtype ≠ unknownQType) :
     db.getInfo qt0 l fu true = db.getInfo qt0 c fu true :=
-  Db.getInfo_alias hr h qt0 hU
+  Db.getInfo_alias h qt0 hU
 
 /-- `Convert(cq, legacy, v, x)` = `Convert(cq, current, v, x)` -/
-theorem convert_legacy_from {db : Db} (hr : db.Regular) {l c : Sym} {r : UnitRow} (h : db.Alias l c r)
+theorem convert_legacy_from {db : Db} {l c : Sym} {r : UnitRow} (h : db.Alias l c r)
     (hU : r.qtype ≠ unknownQType) (cq : Sym) {v : Sym} (hvl : v ≠ l) (hvc : v ≠ c) (x : Rat) :
     db.convert cq l v x = db.convert cq c v x := by
   unfold Db.convert
@@ -68,10 +62,10 @@ theorem convert_legacy_from {db : Db} (hr : db.Regular) {l c : Sym} {r : UnitRow
   simp only [e1, e2, Bool.false_eq_true, ↓reduceIte]
   cases db.typeOf cq with
   | error e => rfl
-  | ok qt => simp only; rw [Db.getInfo_alias hr h qt (Or.inr hU)]
+  | ok qt => simp only; rw [Db.getInfo_alias h qt (Or.inr hU)]
 
 /-- `Convert(cq, u, legacy, x)` = `Convert(cq, u, current, x)` -/
-theorem convert_legacy_to {db : Db} (hr : db.Regular) {l c : Sym} {r : UnitRow} (h : db.Alias l c r)
+theorem convert_legacy_to {db : Db} {l c : Sym} {r : UnitRow} (h : db.Alias l c r)
     (hU : r.qtype ≠ unknownQType) (cq : Sym) {u : Sym} (hul : u ≠ l) (huc : u ≠ c) (x : Rat) :
     db.convert cq u l x = db.convert cq u c x := by
   unfold Db.convert
@@ -80,10 +74,10 @@ theorem convert_legacy_to {db : Db} (hr : db.Regular) {l c : Sym} {r : UnitRow} 
   simp only [e1, e2, Bool.false_eq_true, ↓reduceIte]
   cases db.typeOf cq with
   | error e => rfl
-  | ok qt => simp only; rw [Db.getInfo_alias hr h qt (Or.inr hU)]
+  | ok qt => simp only; rw [Db.getInfo_alias h qt (Or.inr hU)]
 
 /-- both units spelled the legacy way -/
-theorem convert_legacy_both {db : Db} (hr : db.Regular) {l₁ c₁ l₂ c₂ : Sym} {r₁ r₂ : UnitRow}
+theorem convert_legacy_both {db : Db} {l₁ c₁ l₂ c₂ : Sym} {r₁ r₂ : UnitRow}
     (h₁ : db.Alias l₁ c₁ r₁) (h₂ : db.Alias l₂ c₂ r₂) (hU₁ : r₁.qtype ≠ unknownQType)
     (hU₂ : r₂.qtype ≠ unknownQType) (hc : c₁ ≠ c₂) (cq : Sym) (x : Rat) :
     db.convert cq l₁ l₂ x = db.convert cq c₁ c₂ x := by
@@ -94,18 +88,18 @@ theorem convert_legacy_both {db : Db} (hr : db.Regular) {l₁ c₁ l₂ c₂ : S
     have := h₂.notSym
     rw [e, h₁.row] at this; cases this
   have hcl : c₁ ≠ l₂ := fun e => hlc e.symm
-  rw [convert_legacy_from hr h₁ hU₁ cq hl hlc x, convert_legacy_to hr h₂ hU₂ cq hcl hc x]
+  rw [convert_legacy_from h₁ hU₁ cq hl hlc x, convert_legacy_to h₂ hU₂ cq hcl hc x]
 
 /-- converting between the two spellings of one unit is the identity (the current spelling takes
 the same-unit shortcut, the legacy one goes through `from ∘ to` of the one row) -/
-theorem convert_legacy_same {db : Db} (hr : db.Regular) (hwf : ∀ w ∈ db.units, w.WF) {l c : Sym}
+theorem convert_legacy_same {db : Db} (hwf : ∀ w ∈ db.units, w.WF) {l c : Sym}
     {r : UnitRow} (h : db.Alias l c r) (hU : r.qtype ≠ unknownQType) {cq : Sym}
     (hq : db.typeOf cq = .ok r.qtype) (x : Rat) :
     db.convert cq l c x = .ok x ∧ db.convert cq c l x = .ok x := by
   have hg : db.getInfo r.qtype c true true = .ok r := by
-    rw [Db.getInfo_of_symbol hr h.row h.notLegacy]; simp
+    rw [Db.getInfo_of_symbol h.row h.only h.notLegacy]; simp
   have hgl : db.getInfo r.qtype l true true = .ok r := by
-    rw [Db.getInfo_alias hr h r.qtype (Or.inr hU), hg]
+    rw [Db.getInfo_alias h r.qtype (Or.inr hU), hg]
   have e1 : (l == c) = false := by simpa using h.ne
   have e2 : (c == l) = false := by simpa using h.ne.symm
   have hw := hwf r h.mem
@@ -118,7 +112,7 @@ theorem convert_legacy_same {db : Db} (hr : db.Regular) (hwf : ∀ w ∈ db.unit
     rw [convRows_eq hw hw, convVal_self hw]
 
 /-- lists of any length (`Convert` on a list/tuple, `Array.GetValues`): legacy source unit -/
-theorem convertList_legacy_from {db : Db} (hr : db.Regular) {l c : Sym} {r : UnitRow}
+theorem convertList_legacy_from {db : Db} {l c : Sym} {r : UnitRow}
     (h : db.Alias l c r) (hU : r.qtype ≠ unknownQType) (cq : Sym) {v : Sym} (hvl : v ≠ l) (hvc : v ≠ c)
     (xs : List Rat) : db.convertList cq l v xs = db.convertList cq c v xs := by
   unfold Db.convertList
@@ -127,10 +121,10 @@ theorem convertList_legacy_from {db : Db} (hr : db.Regular) {l c : Sym} {r : Uni
   simp only [e1, e2, Bool.false_eq_true, ↓reduceIte]
   cases db.typeOf cq with
   | error e => rfl
-  | ok qt => simp only; rw [Db.getInfo_alias hr h qt (Or.inr hU)]
+  | ok qt => simp only; rw [Db.getInfo_alias h qt (Or.inr hU)]
 
 /-- lists of any length: legacy target unit -/
-theorem convertList_legacy_to {db : Db} (hr : db.Regular) {l c : Sym} {r : UnitRow}
+theorem convertList_legacy_to {db : Db} {l c : Sym} {r : UnitRow}
     (h : db.Alias l c r) (hU : r.qtype ≠ unknownQType) (cq : Sym) {u : Sym} (hul : u ≠ l) (huc : u ≠ c)
     (xs : List Rat) : db.convertList cq u l xs = db.convertList cq u c xs := by
   unfold Db.convertList
@@ -139,7 +133,7 @@ theorem convertList_legacy_to {db : Db} (hr : db.Regular) {l c : Sym} {r : UnitR
   simp only [e1, e2, Bool.false_eq_true, ↓reduceIte]
   cases db.typeOf cq with
   | error e => rfl
-  | ok qt => simp only; rw [Db.getInfo_alias hr h qt (Or.inr hU)]
+  | ok qt => simp only; rw [Db.getInfo_alias h qt (Or.inr hU)]
 
 /-! ## `GetDefaultCategory`, `Quantity`, `ObtainQuantity`, value objects -/
 
@@ -219,7 +213,7 @@ theorem create_legacy {α : Type} {db : Db} {l c : Sym} {r : UnitRow} (h : db.Al
   | ok q => rw [hq] at ho; rw [obtainQuantity_legacy_ok h cat hq]; exact ho
 
 /-- `Scalar.GetValue(legacy)` = `Scalar.GetValue(current)` from any other unit -/
-theorem getValue_legacy {db : Db} (hr : db.Regular) {l c : Sym} {r : UnitRow} (h : db.Alias l c r)
+theorem getValue_legacy {db : Db} {l c : Sym} {r : UnitRow} (h : db.Alias l c r)
     (hU : r.qtype ≠ unknownQType) {q : Simple} (hql : q.unit ≠ l) (hqc : q.unit ≠ c) (x : Rat) :
     db.getValue q x l = db.getValue q x c := by
   unfold Db.getValue
@@ -228,11 +222,11 @@ theorem getValue_legacy {db : Db} (hr : db.Regular) {l c : Sym} {r : UnitRow} (h
   simp only [e1, e2, Bool.false_eq_true, ↓reduceIte]
   cases db.catByName q.cat with
   | none => rfl
-  | some ci => simp only; rw [Db.getInfo_alias hr h ci.qtype (Or.inr hU)]
+  | some ci => simp only; rw [Db.getInfo_alias h ci.qtype (Or.inr hU)]
 
 /-- reading a value in the legacy spelling of its own unit gives the value back (in exact
 arithmetic; the float code goes through `from(to(x))` here and may differ by rounding) -/
-theorem getValue_legacy_own_unit {db : Db} (hr : db.Regular) (hwf : ∀ w ∈ db.units, w.WF)
+theorem getValue_legacy_own_unit {db : Db} (hwf : ∀ w ∈ db.units, w.WF)
     {l c : Sym} {r : UnitRow} (h : db.Alias l c r) (hU : r.qtype ≠ unknownQType) {cat : Sym}
     {q : Simple} (hq : db.newQuantity cat c = .ok q) (x : Rat) :
     db.getValue q x l = .ok x ∧ db.getValue q x c = .ok x := by
@@ -241,22 +235,22 @@ theorem getValue_legacy_own_unit {db : Db} (hr : db.Regular) (hwf : ∀ w ∈ db
   constructor
   · unfold Db.getValue
     have e1 : (c == l) = false := by simpa using h.ne.symm
-    simp only [e1, Bool.false_eq_true, ↓reduceIte, hcat, Db.getInfo_alias hr h ci.qtype (Or.inr hU), hg]
+    simp only [e1, Bool.false_eq_true, ↓reduceIte, hcat, Db.getInfo_alias h ci.qtype (Or.inr hU), hg]
     rw [convRows_eq hw hw, convVal_self hw]
   · unfold Db.getValue; simp
 
 /-- `Array.GetValues(legacy)` = `Array.GetValues(current)` for value lists of any length -/
-theorem getValues_legacy {db : Db} (hr : db.Regular) {l c : Sym} {r : UnitRow} (h : db.Alias l c r)
+theorem getValues_legacy {db : Db} {l c : Sym} {r : UnitRow} (h : db.Alias l c r)
     (hU : r.qtype ≠ unknownQType) {q : Simple} (hql : q.unit ≠ l) (hqc : q.unit ≠ c) (xs : List Rat) :
     db.getValues q xs l = db.getValues q xs c := by
   unfold Db.getValues
   have e1 : (l == q.unit) = false := by simpa using Ne.symm hql
   have e2 : (c == q.unit) = false := by simpa using Ne.symm hqc
   simp only [e1, e2, Bool.false_eq_true, ↓reduceIte]
-  exact convertList_legacy_to hr h hU q.cat hql hqc xs
+  exact convertList_legacy_to h hU q.cat hql hqc xs
 
 /-- the own-unit case for lists of any length -/
-theorem getValues_legacy_own_unit {db : Db} (hr : db.Regular) (hwf : ∀ w ∈ db.units, w.WF)
+theorem getValues_legacy_own_unit {db : Db} (hwf : ∀ w ∈ db.units, w.WF)
     {l c : Sym} {r : UnitRow} (h : db.Alias l c r) (hU : r.qtype ≠ unknownQType) {cat : Sym}
     {q : Simple} (hq : db.newQuantity cat c = .ok q) (xs : List Rat) :
     db.getValues q xs l = .ok xs ∧ db.getValues q xs c = .ok xs := by
@@ -266,17 +260,17 @@ theorem getValues_legacy_own_unit {db : Db} (hr : db.Regular) (hwf : ∀ w ∈ d
   · unfold Db.getValues Db.convertList Db.typeOf
     have e1 : (l == c) = false := by simpa using h.ne
     have e2 : (c == l) = false := by simpa using h.ne.symm
-    simp only [e1, e2, Bool.false_eq_true, ↓reduceIte, hcat, Db.getInfo_alias hr h ci.qtype (Or.inr hU), hg]
+    simp only [e1, e2, Bool.false_eq_true, ↓reduceIte, hcat, Db.getInfo_alias h ci.qtype (Or.inr hU), hg]
     exact mapRows_self hw xs
   · unfold Db.getValues; simp
 
 /-- `CreateCopy(unit=legacy)` = `CreateCopy(unit=current)`: same quantity, same value -/
-theorem createCopy_legacy {db : Db} (hr : db.Regular) {l c : Sym} {r : UnitRow} (h : db.Alias l c r)
+theorem createCopy_legacy {db : Db} {l c : Sym} {r : UnitRow} (h : db.Alias l c r)
     (hU : r.qtype ≠ unknownQType) {q : Simple} (hcat : q.cat ≠ 0) (hql : q.unit ≠ l) (hqc : q.unit ≠ c)
     (x : Rat) : db.createCopy q x l = db.createCopy q x c := by
   unfold Db.createCopy
   have e : (q.cat != 0) = true := by simpa using hcat
-  rw [getValue_legacy hr h hU hql hqc x]
+  rw [getValue_legacy h hU hql hqc x]
   simp only [e, ↓reduceIte, obtainQuantity_legacy_cat h q.cat]
 
 /-! ## category registration -/
@@ -335,21 +329,16 @@ theorem simple_no_symbol_rewritten : ∀ r ∈ simpleDb.units, fixLegacy simpleD
     simp only [UnitRow.notRewritten, beq_iff_eq] at h
     exact h
 
-theorem posc_regular : poscDb.Regular := Db.regular_of_tables poscUnits_all_symuniq poscCats_all_cattype
-theorem nocat_regular : nocatDb.Regular := Db.regular_of_tables nocatUnits_all_symuniq nocatCats_all_cattype
-theorem simple_regular : simpleDb.Regular :=
-  Db.regular_of_tables simpleUnits_all_symuniq simpleCats_all_cattype
-
 /-- **every derived legacy spelling** of every table unit is no symbol itself, is rewritten to the
-symbol it was derived from, whose row is the row the symbol index answers with and which is not
-rewritten; and its quantity type is not the `Unknown` placeholder -/
+symbol it was derived from, which is not rewritten and is the symbol of exactly one row; that row's
+quantity type is not the `Unknown` placeholder and is not re-routed by a category of its name -/
 theorem posc_derived_alias : ∀ p ∈ poscDb.derive, ∃ r, poscDb.Alias p.1 p.2 r ∧ r.qtype ≠ unknownQType :=
-  Db.alias_of_tables poscUnits_all_legfix poscUnits_all_legder poscUnits_all_symuniq
+  Db.alias_of_tables poscUnits_all_legfix poscUnits_all_legder
 theorem nocat_derived_alias : ∀ p ∈ nocatDb.derive, ∃ r, nocatDb.Alias p.1 p.2 r ∧ r.qtype ≠ unknownQType :=
-  Db.alias_of_tables nocatUnits_all_legfix nocatUnits_all_legder nocatUnits_all_symuniq
+  Db.alias_of_tables nocatUnits_all_legfix nocatUnits_all_legder
 theorem simple_derived_alias :
     ∀ p ∈ simpleDb.derive, ∃ r, simpleDb.Alias p.1 p.2 r ∧ r.qtype ≠ unknownQType :=
-  Db.alias_of_tables simpleUnits_all_legfix simpleUnits_all_legder simpleUnits_all_symuniq
+  Db.alias_of_tables simpleUnits_all_legfix simpleUnits_all_legder
 
 /-- **rewriting is idempotent** on every derived spelling and on every current symbol -/
 theorem posc_idempotent :
@@ -381,35 +370,35 @@ def Db.ExactAlias (db : Db) (l c : Sym) : Prop :=
         ∧ db.getValues q xs l = db.getValues q xs c
         ∧ (q.cat ≠ 0 → db.createCopy q x l = db.createCopy q x c))
 
-/-- every alias pair of a regular database is an exact alias -/
-theorem exactAlias_of_alias {db : Db} (hr : db.Regular) {l c : Sym} {r : UnitRow} (h : db.Alias l c r)
+/-- every alias pair is an exact alias -/
+theorem exactAlias_of_alias {db : Db} {l c : Sym} {r : UnitRow} (h : db.Alias l c r)
     (hU : r.qtype ≠ unknownQType) : db.ExactAlias l c := by
-  refine ⟨fun qt fu => getInfo_legacy hr h qt (Or.inr hU), getDefaultCategory_legacy h,
+  refine ⟨fun qt fu => getInfo_legacy h qt (Or.inr hU), getDefaultCategory_legacy h,
     obtainQuantity_legacy_cat h, fun cat q => obtainQuantity_legacy_ok h cat, ?_, ?_, ?_⟩
   · intro cq v x h1 h2
-    exact ⟨convert_legacy_from hr h hU cq h1 h2 x, convert_legacy_to hr h hU cq h1 h2 x⟩
+    exact ⟨convert_legacy_from h hU cq h1 h2 x, convert_legacy_to h hU cq h1 h2 x⟩
   · intro cq v xs h1 h2
-    exact ⟨convertList_legacy_from hr h hU cq h1 h2 xs, convertList_legacy_to hr h hU cq h1 h2 xs⟩
+    exact ⟨convertList_legacy_from h hU cq h1 h2 xs, convertList_legacy_to h hU cq h1 h2 xs⟩
   · intro q x xs h1 h2
-    exact ⟨getValue_legacy hr h hU h1 h2 x, getValues_legacy hr h hU h1 h2 xs,
-      fun hc => createCopy_legacy hr h hU hc h1 h2 x⟩
+    exact ⟨getValue_legacy h hU h1 h2 x, getValues_legacy h hU h1 h2 xs,
+      fun hc => createCopy_legacy h hU hc h1 h2 x⟩
 
 /-- **C16 on the default database**: every derived legacy spelling of every table unit is an exact
 alias of the symbol it was derived from -/
 theorem posc_legacy_exact_alias : ∀ p ∈ poscDb.derive, poscDb.ExactAlias p.1 p.2 := by
   intro p hp
   obtain ⟨r, h, hU⟩ := posc_derived_alias p hp
-  exact exactAlias_of_alias posc_regular h hU
+  exact exactAlias_of_alias h hU
 
 /-- the same for the POSC database without categories and for `FillSimple` -/
 theorem nocat_legacy_exact_alias : ∀ p ∈ nocatDb.derive, nocatDb.ExactAlias p.1 p.2 := by
   intro p hp
   obtain ⟨r, h, hU⟩ := nocat_derived_alias p hp
-  exact exactAlias_of_alias nocat_regular h hU
+  exact exactAlias_of_alias h hU
 theorem simple_legacy_exact_alias : ∀ p ∈ simpleDb.derive, simpleDb.ExactAlias p.1 p.2 := by
   intro p hp
   obtain ⟨r, h, hU⟩ := simple_derived_alias p hp
-  exact exactAlias_of_alias simple_regular h hU
+  exact exactAlias_of_alias h hU
 
 /-! ## non-vacuity -/
 
